@@ -243,6 +243,7 @@ def run(spec, hang_ok=False):
         target = cp.get('target', 0)
         ev = log.add('cancel.begin', how=how, target=target)
         obs.cancel_events.append(ev)
+        d.cancel_began = True
         if how == 'future.cancel':
             xfers[target].future.cancel()
         log.add('cancel.end', how=how, target=target)
@@ -271,12 +272,38 @@ def run(spec, hang_ok=False):
     obs.main_cancel_request = threading.Event()
     d.on_cancel_point = on_cancel_point
 
+    # ---- yield injection / race windows -------------------------------------
+    obs.injector = None
+    obs.window_found = None
+    ycfg = spec.get('yield')
+    old_switch = sys.getswitchinterval()
+    if ycfg:
+        from . import yieldinj
+
+        windows = []
+        wspec = ycfg.get('window')
+        if wspec:
+            line = yieldinj.find_line(wspec['file'], wspec['text'], wspec.get('occ', 0))
+            obs.window_found = line is not None
+            if line is not None:
+                def action(wspec=wspec):
+                    do_cancel({'how': wspec.get('how', 'future.cancel'), 'target': wspec.get('target', 0)})
+                windows.append({'file': wspec['file'], 'line': line + wspec.get('line_offset', 0), 'nth': wspec.get('nth', 0),
+                                'action': action, 'name': wspec.get('name', wspec['text'][:40])})
+        obs.injector = yieldinj.Injector(p=ycfg.get('p', 0.0), seed=spec.get('seed', 0), windows=windows,
+                                         files=ycfg.get('files')).install()
+        if ycfg.get('switch'):
+            sys.setswitchinterval(ycfg['switch'])
+
     # ---- submit --------------------------------------------------------------
     mode = spec.get('mode', 'plain')  # plain | with_exc | with_kbi | shutdown_cancel
     t_start = time.monotonic()
     try:
         _drive(obs, mgr, xfers, spec, mode, do_cancel)
     finally:
+        if obs.injector is not None:
+            obs.injector.uninstall()
+        sys.setswitchinterval(old_switch)
         if obs.gate is not None:
             obs.gate.stop_flag = True
         d.stop()
@@ -364,11 +391,17 @@ def _drive(obs, mgr, xfers, spec, mode, do_cancel):
             obl.append(o)
         return obl
 
+    def cancel_obligation(cpl, what):
+        # the cancel call itself is an obligation: it must return
+        ob = watchdog.Obligation(lambda: do_cancel(cpl), name=what).start()
+        return _await(obs, ob.done.is_set, what)
+
     if cp and cp.get('at') == '@after_submit':
         # cancel immediately after submission returns, from the user thread
         if not _await(obs, sub_done.is_set, 'submit'):
             return
-        do_cancel(cp)
+        if not cancel_obligation(cp, 'cancel()'):
+            return
     if not _await(obs, sub_done.is_set, 'submit'):
         return
 
@@ -376,18 +409,21 @@ def _drive(obs, mgr, xfers, spec, mode, do_cancel):
         obl = start_results()
         main_cancelled = [False]
 
+        cancel_ob = []
+
         def done_or_cancel():
             if cp and obs.main_cancel_request.is_set() and not main_cancelled[0]:
                 main_cancelled[0] = True
-                do_cancel(cp)
-            return all(o.done.is_set() for o in obl)
+                cancel_ob.append(watchdog.Obligation(lambda: do_cancel(cp), name='cancel()').start())
+            return all(o.done.is_set() for o in obl) and all(o.done.is_set() for o in cancel_ob)
 
         if not _await(obs, done_or_cancel, 'result'):
             _record_outcomes(xfers)
             return
         _record_outcomes(xfers)
         if cp and cp.get('at') == '@after_done':
-            do_cancel(cp)
+            if not cancel_obligation(cp, 'cancel()-after-done'):
+                return
             # a finished transfer keeps its result: collect again
             for x in xfers:
                 if x.future is not None:
